@@ -3,4 +3,576 @@ import PyCliffordModel.Spec.Maps
 /-! # Proofs/Rotate — helper lemmas for C02 (rotation), masks (`gather`/`scatter`) -/
 namespace PC
 
+/-! ## identity strings longer than the other argument -/
+
+theorem acqSum_idStr_left (a : PStr) (n : Nat) : acqSum (idStr n) a = 0 := by
+  rw [acqSum_antisymm, acqSum_idStr_right]; rfl
+
+theorem xorS_idStr_right_le (a : PStr) (n : Nat) (h : a.length ≤ n) : xorS a (idStr n) = a := by
+  induction a generalizing n with
+  | nil => rfl
+  | cons x xs ih =>
+    cases n with
+    | zero => simp at h
+    | succ n => rw [idStr_succ, xorS_cons, xorQ_id_right, ih n (by simpa using h)]
+
+theorem xorS_idStr_left_le (a : PStr) (n : Nat) (h : a.length ≤ n) : xorS (idStr n) a = a := by
+  rw [xorS_comm, xorS_idStr_right_le a n h]
+
+/-! ## `rotate`: the two branches, lengths, congruence -/
+
+theorem rotate_of_acq_zero (G P : Pauli) (h : acq G.g P.g = 0) : rotate G P = P := by
+  simp [rotate, (anti_eq_false_iff _ _).2 h]
+
+theorem rotate_of_acq_one (G P : Pauli) (h : acq G.g P.g = 1) :
+    rotate G P = ⟨xorS P.g G.g, (P.p + G.p + 1 + ipow P.g G.g) % 4⟩ := by
+  simp [rotate, (anti_iff _ _).2 h]
+
+/-- the string of `rotate G P` only depends on the strings -/
+theorem rotate_g (G P : Pauli) : (rotate G P).g = rotateSignless G.g P.g := by
+  unfold rotate rotateSignless
+  cases anti G.g P.g <;> simp
+
+theorem length_rotate (G P : Pauli) (hl : G.g.length = P.g.length) : (rotate G P).g.length = P.g.length := by
+  rcases acq_bit G.g P.g with h | h
+  · rw [rotate_of_acq_zero G P h]
+  · rw [rotate_of_acq_one G P h]; exact length_xorS_eq _ _ hl.symm
+
+/-- `rotate G` respects equality up to the phase representative -/
+theorem rotate_congr_PEq (G : Pauli) {a b : Pauli} (h : PEq a b) : PEq (rotate G a) (rotate G b) := by
+  obtain ⟨ag, ap⟩ := a; obtain ⟨bg, bp⟩ := b
+  obtain ⟨hg, hp⟩ := h
+  simp only at hg hp
+  subst hg
+  rcases acq_bit G.g ag with h | h
+  · rw [rotate_of_acq_zero G ⟨ag, ap⟩ h, rotate_of_acq_zero G ⟨ag, bp⟩ h]; exact ⟨rfl, hp⟩
+  · rw [rotate_of_acq_one G ⟨ag, ap⟩ h, rotate_of_acq_one G ⟨ag, bp⟩ h]
+    refine ⟨rfl, ?_⟩
+    simp only
+    omega
+
+/-- `rotate` respects `PEq` in the generator as well -/
+theorem rotate_congr_PEq_gen {G G' : Pauli} (h : PEq G G') (P : Pauli) : PEq (rotate G P) (rotate G' P) := by
+  obtain ⟨g, p⟩ := G; obtain ⟨g', p'⟩ := G'
+  obtain ⟨hg, hp⟩ := h
+  simp only at hg hp
+  subst hg
+  rcases acq_bit g P.g with h | h
+  · rw [rotate_of_acq_zero ⟨g, p⟩ P h, rotate_of_acq_zero ⟨g, p'⟩ P h]; exact PEq.refl _
+  · rw [rotate_of_acq_one ⟨g, p⟩ P h, rotate_of_acq_one ⟨g, p'⟩ P h]
+    refine ⟨rfl, ?_⟩
+    simp only
+    omega
+
+/-! ## phase identities used by the rotation proofs -/
+
+/-- `σ[P]σ[G]·σ[G]`: the two phases cancel -/
+theorem ipow_xorS_cancel (P G : PStr) (hl : P.length = G.length) :
+    (ipow P G + ipow (xorS P G) G) % 4 = 0 := by
+  have h := ipow_cocycle P G G hl rfl
+  rw [xorS_self, ipow_self, ipow_idStr_right] at h
+  omega
+
+theorem acq_xorS_self_right (G P : PStr) (hl : G.length = P.length) : acq G (xorS P G) = acq G P := by
+  have hb := acq_bit G P
+  rw [acq_xorS_right G P G hl.symm, acq_self]; omega
+
+/-- rotating twice with generators on the same string `g` (arbitrary phases): `P` anticommuting with `g`
+    comes back with the phase `p + p_G + p_G' + 2` -/
+theorem rotate_rotate_same_g (G G' P : Pauli) (hg : G'.g = G.g) (hl : G.g.length = P.g.length)
+    (h : acq G.g P.g = 1) :
+    PEq (rotate G' (rotate G P)) ⟨P.g, P.p + G.p + G'.p + 2⟩ := by
+  rw [rotate_of_acq_one G P h]
+  have h2 : acq G'.g (xorS P.g G.g) = 1 := by rw [hg, acq_xorS_self_right G.g P.g hl]; exact h
+  rw [rotate_of_acq_one G' _ h2]
+  simp only [hg]
+  refine ⟨xorS_cancel_right _ _ hl.symm, ?_⟩
+  have hc := ipow_xorS_cancel P.g G.g hl.symm
+  simp only
+  omega
+
+/-! ## rotations by commuting generators commute -/
+
+theorem rotate_rotate_comm (G1 G2 P : Pauli) (h12 : acq G1.g G2.g = 0)
+    (hl1 : G1.g.length = P.g.length) (hl2 : G2.g.length = P.g.length) :
+    PEq (rotate G1 (rotate G2 P)) (rotate G2 (rotate G1 P)) := by
+  have h21 : acq G2.g G1.g = 0 := by rw [acq_symm]; exact h12
+  rcases acq_bit G1.g P.g with h1 | h1 <;> rcases acq_bit G2.g P.g with h2 | h2
+  · rw [rotate_of_acq_zero G2 P h2, rotate_of_acq_zero G1 P h1, rotate_of_acq_zero G2 P h2]
+    exact PEq.refl _
+  · have h1' : acq G1.g (xorS P.g G2.g) = 0 := by
+      rw [acq_xorS_right _ _ _ hl2.symm, h1, h12]; rfl
+    rw [rotate_of_acq_zero G1 P h1, rotate_of_acq_one G2 P h2, rotate_of_acq_zero G1 _ h1']
+    exact PEq.refl _
+  · have h2' : acq G2.g (xorS P.g G1.g) = 0 := by
+      rw [acq_xorS_right _ _ _ hl1.symm, h2, h21]; rfl
+    rw [rotate_of_acq_zero G2 P h2, rotate_of_acq_one G1 P h1, rotate_of_acq_zero G2 _ h2']
+    exact PEq.refl _
+  · have h1' : acq G1.g (xorS P.g G2.g) = 1 := by
+      rw [acq_xorS_right _ _ _ hl2.symm, h1, h12]; rfl
+    have h2' : acq G2.g (xorS P.g G1.g) = 1 := by
+      rw [acq_xorS_right _ _ _ hl1.symm, h2, h21]; rfl
+    rw [rotate_of_acq_one G2 P h2, rotate_of_acq_one G1 P h1, rotate_of_acq_one G1 _ h1',
+      rotate_of_acq_one G2 _ h2']
+    refine ⟨?_, ?_⟩
+    · simp only [xorS_assoc, xorS_comm G1.g G2.g]
+    · have c1 := ipow_cocycle P.g G2.g G1.g hl2.symm (hl2.trans hl1.symm)
+      have c2 := ipow_cocycle P.g G1.g G2.g hl1.symm (hl1.trans hl2.symm)
+      have hs := ipow_swap G1.g G2.g
+      rw [xorS_comm G2.g G1.g] at c1
+      simp only
+      omega
+
+/-! ## masks: `gather`, `scatter`, `maskCount` -/
+
+theorem gather_nil_left (g : PStr) : gather [] g = [] := by simp [gather]
+theorem gather_nil_right (m : List Bool) : gather m [] = [] := by cases m <;> simp [gather]
+theorem gather_cons_true (ms : List Bool) (q : Q) (qs : PStr) :
+    gather (true :: ms) (q :: qs) = q :: gather ms qs := by simp [gather]
+theorem gather_cons_false (ms : List Bool) (q : Q) (qs : PStr) :
+    gather (false :: ms) (q :: qs) = gather ms qs := by simp [gather]
+
+theorem scatter_nil_left (g s : PStr) : scatter [] g s = g := by simp [scatter]
+theorem scatter_nil_mid (m : List Bool) (s : PStr) : scatter m [] s = [] := by cases m <;> simp [scatter]
+theorem scatter_cons_false (ms : List Bool) (q : Q) (qs s : PStr) :
+    scatter (false :: ms) (q :: qs) s = q :: scatter ms qs s := by simp [scatter]
+theorem scatter_cons_true_cons (ms : List Bool) (q : Q) (qs : PStr) (s : Q) (ss : PStr) :
+    scatter (true :: ms) (q :: qs) (s :: ss) = s :: scatter ms qs ss := by simp [scatter]
+theorem scatter_cons_true_nil (ms : List Bool) (q : Q) (qs : PStr) :
+    scatter (true :: ms) (q :: qs) [] = q :: scatter ms qs [] := by simp [scatter]
+
+theorem maskCount_nil : maskCount [] = 0 := rfl
+theorem maskCount_cons_true (ms : List Bool) : maskCount (true :: ms) = maskCount ms + 1 := by
+  simp [maskCount]
+theorem maskCount_cons_false (ms : List Bool) : maskCount (false :: ms) = maskCount ms := by
+  simp [maskCount]
+theorem maskCount_le_length (m : List Bool) : maskCount m ≤ m.length := by
+  unfold maskCount; exact List.length_filter_le _ _
+
+/-- `scatter` never changes the number of qubits -/
+theorem length_scatter (m : List Bool) (g s : PStr) : (scatter m g s).length = g.length := by
+  induction m generalizing g s with
+  | nil => rw [scatter_nil_left]
+  | cons b ms ih =>
+    cases g with
+    | nil => rw [scatter_nil_mid]
+    | cons q qs =>
+      cases b with
+      | false => simp [scatter_cons_false, ih]
+      | true =>
+        cases s with
+        | nil => simp [scatter_cons_true_nil, ih]
+        | cons s0 ss => simp [scatter_cons_true_cons, ih]
+
+/-- the gathered substring has one qubit per `true` of the mask (mask not longer than the string) -/
+theorem length_gather (m : List Bool) (g : PStr) (h : m.length ≤ g.length) :
+    (gather m g).length = maskCount m := by
+  induction m generalizing g with
+  | nil => rw [gather_nil_left]; rfl
+  | cons b ms ih =>
+    cases g with
+    | nil => simp at h
+    | cons q qs =>
+      have h' : ms.length ≤ qs.length := by simpa using h
+      cases b with
+      | false => rw [gather_cons_false, maskCount_cons_false, ih qs h']
+      | true => rw [gather_cons_true, maskCount_cons_true, List.length_cons, ih qs h']
+
+theorem length_gather_le (m : List Bool) (g : PStr) : (gather m g).length ≤ maskCount m := by
+  induction m generalizing g with
+  | nil => rw [gather_nil_left]; exact Nat.le_refl _
+  | cons b ms ih =>
+    cases g with
+    | nil => rw [gather_nil_right]; exact Nat.zero_le _
+    | cons q qs =>
+      have := ih qs
+      cases b with
+      | false => rw [gather_cons_false, maskCount_cons_false]; exact this
+      | true => rw [gather_cons_true, maskCount_cons_true, List.length_cons]; omega
+
+/-- writing back what was read changes nothing -/
+theorem scatter_gather (m : List Bool) (g : PStr) : scatter m g (gather m g) = g := by
+  induction m generalizing g with
+  | nil => rw [scatter_nil_left]
+  | cons b ms ih =>
+    cases g with
+    | nil => rw [scatter_nil_mid]
+    | cons q qs =>
+      cases b with
+      | false => rw [gather_cons_false, scatter_cons_false, ih]
+      | true => rw [gather_cons_true, scatter_cons_true_cons, ih]
+
+/-- reading back what was written returns it (when the sizes fit) -/
+theorem gather_scatter (m : List Bool) (g s : PStr) (hm : m.length ≤ g.length) (hs : s.length = maskCount m) :
+    gather m (scatter m g s) = s := by
+  induction m generalizing g s with
+  | nil =>
+    rw [gather_nil_left]
+    cases s with
+    | nil => rfl
+    | cons s0 ss => simp [maskCount] at hs
+  | cons b ms ih =>
+    cases g with
+    | nil => simp at hm
+    | cons q qs =>
+      have hm' : ms.length ≤ qs.length := by simpa using hm
+      cases b with
+      | false =>
+        rw [maskCount_cons_false] at hs
+        rw [scatter_cons_false, gather_cons_false, ih qs s hm' hs]
+      | true =>
+        rw [maskCount_cons_true] at hs
+        cases s with
+        | nil => simp at hs
+        | cons s0 ss =>
+          have hs' : ss.length = maskCount ms := by simpa using hs
+          rw [scatter_cons_true_cons, gather_cons_true, ih qs ss hm' hs']
+
+/-- `scatter` leaves every unmasked position alone -/
+theorem getD_scatter_unmasked (m : List Bool) (g s : PStr) (i : Nat) (d : Q)
+    (hi : m.getD i false = false) : (scatter m g s).getD i d = g.getD i d := by
+  induction m generalizing g s i with
+  | nil => rw [scatter_nil_left]
+  | cons b ms ih =>
+    cases g with
+    | nil => rw [scatter_nil_mid]
+    | cons q qs =>
+      cases i with
+      | zero =>
+        have hb : b = false := by simpa using hi
+        subst hb
+        rw [scatter_cons_false]; rfl
+      | succ j =>
+        have hj : ms.getD j false = false := by simpa using hi
+        cases b with
+        | false => rw [scatter_cons_false]; simpa using ih qs s j hj
+        | true =>
+          cases s with
+          | nil => rw [scatter_cons_true_nil]; simpa using ih qs [] j hj
+          | cons s0 ss => rw [scatter_cons_true_cons]; simpa using ih qs ss j hj
+
+/-- gathering through a mask from a string that was scattered through a mask with no common wire
+    sees the background -/
+theorem gather_idStr (m : List Bool) (n : Nat) (h : m.length ≤ n) : gather m (idStr n) = idStr (maskCount m) := by
+  induction m generalizing n with
+  | nil => rw [gather_nil_left]; rfl
+  | cons b ms ih =>
+    cases n with
+    | zero => simp at h
+    | succ n =>
+      have h' : ms.length ≤ n := by simpa using h
+      cases b with
+      | false => rw [idStr_succ, gather_cons_false, maskCount_cons_false, ih n h']
+      | true => rw [idStr_succ, gather_cons_true, maskCount_cons_true, idStr_succ, ih n h']
+
+/-! ## the kernels through `scatter` with an identity background
+
+`scatter m (idStr n) s` is `s` embedded among identity wires. For every string `g` on at most `n`
+qubits the kernels only see the masked qubits of `g`. No condition on the length of `s`: missing entries
+are identity in `scatter` and truncated in the kernels, extra entries are dropped by both. -/
+
+theorem acqSum_scatter_idStr_left (m : List Bool) (n : Nat) (s g : PStr) (h : g.length ≤ n) :
+    acqSum (scatter m (idStr n) s) g = acqSum s (gather m g) := by
+  induction m generalizing n s g with
+  | nil => rw [scatter_nil_left, gather_nil_left, acqSum_nil_right, acqSum_idStr_left]
+  | cons b ms ih =>
+    cases g with
+    | nil => rw [gather_nil_right, acqSum_nil_right, acqSum_nil_right]
+    | cons y ys =>
+      cases n with
+      | zero => simp at h
+      | succ n =>
+        have h' : ys.length ≤ n := by simpa using h
+        rw [idStr_succ]
+        cases b with
+        | false =>
+          rw [scatter_cons_false, gather_cons_false, acqSum_cons, acqQ_id_left, ih n s ys h']; omega
+        | true =>
+          cases s with
+          | nil =>
+            rw [scatter_cons_true_nil, acqSum_cons, acqQ_id_left, ih n [] ys h', acqSum_nil_left,
+              acqSum_nil_left]; rfl
+          | cons s0 ss =>
+            rw [scatter_cons_true_cons, gather_cons_true, acqSum_cons, acqSum_cons, ih n ss ys h']
+
+theorem acqSum_scatter_idStr_right (m : List Bool) (n : Nat) (s g : PStr) (h : g.length ≤ n) :
+    acqSum g (scatter m (idStr n) s) = acqSum (gather m g) s := by
+  rw [acqSum_antisymm, acqSum_scatter_idStr_left m n s g h, ← acqSum_antisymm]
+
+theorem acq_scatter_idStr_left (m : List Bool) (n : Nat) (s g : PStr) (h : g.length ≤ n) :
+    acq (scatter m (idStr n) s) g = acq s (gather m g) := by
+  unfold acq; rw [acqSum_scatter_idStr_left m n s g h]
+
+theorem acq_scatter_idStr_right (m : List Bool) (n : Nat) (s g : PStr) (h : g.length ≤ n) :
+    acq g (scatter m (idStr n) s) = acq (gather m g) s := by
+  unfold acq; rw [acqSum_scatter_idStr_right m n s g h]
+
+theorem ipowSum_scatter_idStr_left (m : List Bool) (n : Nat) (s g : PStr) (h : g.length ≤ n) :
+    ipowSum (scatter m (idStr n) s) g = ipowSum s (gather m g) := by
+  induction m generalizing n s g with
+  | nil => rw [scatter_nil_left, gather_nil_left, ipowSum_nil_right, ipowSum_idStr_left]
+  | cons b ms ih =>
+    cases g with
+    | nil => rw [gather_nil_right, ipowSum_nil_right, ipowSum_nil_right]
+    | cons y ys =>
+      cases n with
+      | zero => simp at h
+      | succ n =>
+        have h' : ys.length ≤ n := by simpa using h
+        rw [idStr_succ]
+        cases b with
+        | false =>
+          rw [scatter_cons_false, gather_cons_false, ipowSum_cons, ipowQ_id_left, ih n s ys h']; omega
+        | true =>
+          cases s with
+          | nil =>
+            rw [scatter_cons_true_nil, ipowSum_cons, ipowQ_id_left, ih n [] ys h', ipowSum_nil_left,
+              ipowSum_nil_left]; rfl
+          | cons s0 ss =>
+            rw [scatter_cons_true_cons, gather_cons_true, ipowSum_cons, ipowSum_cons, ih n ss ys h']
+
+theorem ipowSum_scatter_idStr_right (m : List Bool) (n : Nat) (s g : PStr) (h : g.length ≤ n) :
+    ipowSum g (scatter m (idStr n) s) = ipowSum (gather m g) s := by
+  induction m generalizing n s g with
+  | nil => rw [scatter_nil_left, gather_nil_left, ipowSum_nil_left, ipowSum_idStr_right]
+  | cons b ms ih =>
+    cases g with
+    | nil => rw [gather_nil_right, ipowSum_nil_left, ipowSum_nil_left]
+    | cons y ys =>
+      cases n with
+      | zero => simp at h
+      | succ n =>
+        have h' : ys.length ≤ n := by simpa using h
+        rw [idStr_succ]
+        cases b with
+        | false =>
+          rw [scatter_cons_false, gather_cons_false, ipowSum_cons, ipowQ_id_right, ih n s ys h']; omega
+        | true =>
+          cases s with
+          | nil =>
+            rw [scatter_cons_true_nil, ipowSum_cons, ipowQ_id_right, ih n [] ys h', ipowSum_nil_right,
+              ipowSum_nil_right]; rfl
+          | cons s0 ss =>
+            rw [scatter_cons_true_cons, gather_cons_true, ipowSum_cons, ipowSum_cons, ih n ss ys h']
+
+theorem ipow_scatter_idStr_left (m : List Bool) (n : Nat) (s g : PStr) (h : g.length ≤ n) :
+    ipow (scatter m (idStr n) s) g = ipow s (gather m g) := by
+  unfold ipow; rw [ipowSum_scatter_idStr_left m n s g h]
+
+theorem ipow_scatter_idStr_right (m : List Bool) (n : Nat) (s g : PStr) (h : g.length ≤ n) :
+    ipow g (scatter m (idStr n) s) = ipow (gather m g) s := by
+  unfold ipow; rw [ipowSum_scatter_idStr_right m n s g h]
+
+/-- multiplying by an embedded string = multiplying the masked qubits and writing them back -/
+theorem xorS_scatter_idStr_right (m : List Bool) (n : Nat) (s g : PStr) (h : g.length ≤ n) :
+    xorS g (scatter m (idStr n) s) = scatter m g (xorS (gather m g) s) := by
+  induction m generalizing n s g with
+  | nil =>
+    rw [scatter_nil_left, scatter_nil_left, xorS_idStr_right_le g n h]
+  | cons b ms ih =>
+    cases g with
+    | nil => rw [scatter_nil_mid, xorS_nil_left]
+    | cons y ys =>
+      cases n with
+      | zero => simp at h
+      | succ n =>
+        have h' : ys.length ≤ n := by simpa using h
+        rw [idStr_succ]
+        cases b with
+        | false =>
+          rw [scatter_cons_false, gather_cons_false, xorS_cons, xorQ_id_right, scatter_cons_false,
+            ih n s ys h']
+        | true =>
+          cases s with
+          | nil =>
+            rw [scatter_cons_true_nil, xorS_cons, xorQ_id_right, xorS_nil_right, scatter_cons_true_nil,
+              ih n [] ys h', xorS_nil_right]
+          | cons s0 ss =>
+            rw [scatter_cons_true_cons, gather_cons_true, xorS_cons, xorS_cons, scatter_cons_true_cons,
+              ih n ss ys h']
+
+theorem xorS_scatter_idStr_left (m : List Bool) (n : Nat) (s g : PStr) (h : g.length ≤ n) :
+    xorS (scatter m (idStr n) s) g = scatter m g (xorS s (gather m g)) := by
+  rw [xorS_comm, xorS_scatter_idStr_right m n s g h, xorS_comm]
+
+/-! ## rotation is an automorphism: products and commutation relations -/
+
+theorem rotate_acq (G P Q : Pauli) (hP : G.g.length = P.g.length) (hQ : G.g.length = Q.g.length) :
+    acq (rotate G P).g (rotate G Q).g = acq P.g Q.g := by
+  have hPQ := acq_bit P.g Q.g
+  have hGP : acq P.g G.g = acq G.g P.g := acq_symm _ _
+  rcases acq_bit G.g P.g with h1 | h1 <;> rcases acq_bit G.g Q.g with h2 | h2
+  · rw [rotate_of_acq_zero G P h1, rotate_of_acq_zero G Q h2]
+  · rw [rotate_of_acq_zero G P h1, rotate_of_acq_one G Q h2]
+    simp only
+    rw [acq_xorS_right _ _ _ hQ.symm, hGP, h1]; omega
+  · rw [rotate_of_acq_one G P h1, rotate_of_acq_zero G Q h2]
+    simp only
+    rw [acq_xorS_left _ _ _ hP.symm, h2]; omega
+  · rw [rotate_of_acq_one G P h1, rotate_of_acq_one G Q h2]
+    simp only
+    rw [acq_xorS_left _ _ _ hP.symm, acq_xorS_right _ _ _ hQ.symm, acq_xorS_right _ _ _ hQ.symm,
+      hGP, h1, h2, acq_self]; omega
+
+/-- rotation by a Hermitian generator is multiplicative -/
+theorem rotate_mul (G P Q : Pauli) (hG : G.p % 2 = 0) (hP : G.g.length = P.g.length)
+    (hQ : G.g.length = Q.g.length) :
+    PEq (rotate G (mul P Q)) (mul (rotate G P) (rotate G Q)) := by
+  have hPQl : P.g.length = Q.g.length := hP.symm.trans hQ
+  have hacq : acq G.g (mul P Q).g = (acq G.g P.g + acq G.g Q.g) % 2 := by
+    rw [mul_g, acq_xorS_right _ _ _ hPQl]
+  rcases acq_bit G.g P.g with h1 | h1 <;> rcases acq_bit G.g Q.g with h2 | h2
+  · rw [h1, h2] at hacq
+    rw [rotate_of_acq_zero G P h1, rotate_of_acq_zero G Q h2, rotate_of_acq_zero G _ hacq]
+    exact PEq.refl _
+  · -- `P` commutes, `Q` anticommutes: cocycle `(P, Q, G)`
+    rw [h1, h2] at hacq
+    rw [rotate_of_acq_zero G P h1, rotate_of_acq_one G Q h2, rotate_of_acq_one G _ hacq]
+    refine ⟨?_, ?_⟩
+    · simp only [mul, xorS_assoc]
+    · have c := ipow_cocycle P.g Q.g G.g hPQl hQ.symm
+      simp only [mul]
+      omega
+  · -- `P` anticommutes, `Q` commutes: cocycles `(P, Q, G)`, `(P, G, Q)` and `σ[Q]σ[G] = σ[G]σ[Q]`
+    rw [h1, h2] at hacq
+    rw [rotate_of_acq_one G P h1, rotate_of_acq_zero G Q h2, rotate_of_acq_one G _ hacq]
+    refine ⟨?_, ?_⟩
+    · simp only [mul, xorS_assoc, xorS_comm Q.g G.g]
+    · have c1 := ipow_cocycle P.g Q.g G.g hPQl hQ.symm
+      have c2 := ipow_cocycle P.g G.g Q.g hP.symm hQ
+      have hs := ipow_swap G.g Q.g
+      rw [xorS_comm Q.g G.g] at c1
+      simp only [mul]
+      omega
+  · -- both anticommute: `(iPG)(iQG) = -PGQG = PQGG = PQ`
+    rw [h1, h2] at hacq
+    rw [rotate_of_acq_one G P h1, rotate_of_acq_one G Q h2, rotate_of_acq_zero G _ hacq]
+    have hQGl : Q.g.length = G.g.length := hQ.symm
+    have hx : xorS G.g (xorS Q.g G.g) = Q.g := by
+      rw [xorS_comm Q.g G.g, xorS_cancel_left _ _ hQ]
+    refine ⟨?_, ?_⟩
+    · simp only [mul]
+      rw [xorS_assoc, hx]
+    · have c1 := ipow_cocycle P.g G.g (xorS Q.g G.g) hP.symm
+        (by rw [length_xorS_eq' _ _ hQGl])
+      rw [hx] at c1
+      have c2 := ipow_xorS_cancel Q.g G.g hQGl
+      have hs := ipow_swap G.g (xorS Q.g G.g)
+      rw [acq_xorS_self_right G.g Q.g hQ, h2] at hs
+      simp only [mul]
+      omega
+
+/-! ## masked rotation = rotation by the embedded generator -/
+
+theorem length_embedGen (m : List Bool) (N : Nat) (G : Pauli) : (embedGen m N G).g.length = N := by
+  simp only [embedGen]; rw [length_scatter, length_idStr]
+
+/-- no size hypothesis on `G` or `m` is needed: both sides truncate/pad alike -/
+theorem rotateMasked_eq_rotate_embedGen (G P : Pauli) (m : List Bool) :
+    rotateMasked G m P = rotate (embedGen m P.g.length G) P := by
+  have hle : P.g.length ≤ P.g.length := Nat.le_refl _
+  have hacq : acq (embedGen m P.g.length G).g P.g = acq G.g (gather m P.g) := by
+    simp only [embedGen]; exact acq_scatter_idStr_left m _ G.g P.g hle
+  unfold rotateMasked
+  rcases acq_bit G.g (gather m P.g) with h | h
+  · rw [rotate_of_acq_zero G ⟨gather m P.g, P.p⟩ h, rotate_of_acq_zero _ P (hacq.trans h)]
+    simp only [scatter_gather]
+  · rw [rotate_of_acq_one G ⟨gather m P.g, P.p⟩ h, rotate_of_acq_one _ P (hacq.trans h)]
+    simp only [embedGen]
+    rw [xorS_scatter_idStr_right m _ G.g P.g hle, ipow_scatter_idStr_right m _ G.g P.g hle]
+
+theorem rotateMasked_g_unmasked (G P : Pauli) (m : List Bool) (i : Nat) (d : Q)
+    (hi : m.getD i false = false) : (rotateMasked G m P).g.getD i d = P.g.getD i d := by
+  simp only [rotateMasked]; exact getD_scatter_unmasked m P.g _ i d hi
+
+theorem length_rotateMasked (G P : Pauli) (m : List Bool) : (rotateMasked G m P).g.length = P.g.length := by
+  simp only [rotateMasked]; exact length_scatter _ _ _
+
+/-! ## disjoint masks -/
+
+/-- no position is `true` in both masks -/
+def maskDisj : List Bool → List Bool → Bool
+  | a :: as, b :: bs => !(a && b) && maskDisj as bs
+  | _, _ => true
+
+theorem maskDisj_cons (a : Bool) (as : List Bool) (b : Bool) (bs : List Bool) :
+    maskDisj (a :: as) (b :: bs) = (!(a && b) && maskDisj as bs) := rfl
+
+theorem maskDisj_comm (m1 m2 : List Bool) : maskDisj m1 m2 = maskDisj m2 m1 := by
+  induction m1 generalizing m2 with
+  | nil => cases m2 <;> rfl
+  | cons a as ih =>
+    cases m2 with
+    | nil => rfl
+    | cons b bs => rw [maskDisj_cons, maskDisj_cons, ih bs, Bool.and_comm a b]
+
+theorem maskDisj_iff_getD (m1 m2 : List Bool) :
+    maskDisj m1 m2 = true ↔ ∀ i, ¬ (m1.getD i false = true ∧ m2.getD i false = true) := by
+  induction m1 generalizing m2 with
+  | nil => simp [maskDisj]
+  | cons a as ih =>
+    cases m2 with
+    | nil => simp [maskDisj]
+    | cons b bs =>
+      rw [maskDisj_cons, Bool.and_eq_true, ih bs]
+      constructor
+      · rintro ⟨h0, hr⟩ i
+        cases i with
+        | zero => cases a <;> cases b <;> simp_all
+        | succ j => simpa using hr j
+      · intro H
+        refine ⟨?_, fun j => by simpa using H (j + 1)⟩
+        have := H 0
+        cases a <;> cases b <;> simp_all
+
+/-- strings embedded through disjoint masks commute (`acqSum` is exactly `0`) -/
+theorem acqSum_scatter_scatter_disj (m1 m2 : List Bool) (n : Nat) (s1 s2 : PStr)
+    (hd : maskDisj m1 m2 = true) :
+    acqSum (scatter m1 (idStr n) s1) (scatter m2 (idStr n) s2) = 0 := by
+  induction m1 generalizing m2 n s1 s2 with
+  | nil => rw [scatter_nil_left, acqSum_idStr_left]
+  | cons a as ih =>
+    cases m2 with
+    | nil => rw [scatter_nil_left, acqSum_idStr_right]
+    | cons b bs =>
+      cases n with
+      | zero => rw [idStr_zero, scatter_nil_mid, acqSum_nil_left]
+      | succ n =>
+        rw [maskDisj_cons, Bool.and_eq_true] at hd
+        obtain ⟨hab, hd'⟩ := hd
+        rw [idStr_succ]
+        cases a with
+        | false =>
+          rw [scatter_cons_false]
+          cases b with
+          | false => rw [scatter_cons_false, acqSum_cons, acqQ_id_left, ih bs n s1 s2 hd']; rfl
+          | true =>
+            cases s2 with
+            | nil => rw [scatter_cons_true_nil, acqSum_cons, acqQ_id_left, ih bs n s1 [] hd']; rfl
+            | cons t ts => rw [scatter_cons_true_cons, acqSum_cons, acqQ_id_left, ih bs n s1 ts hd']; rfl
+        | true =>
+          have hb : b = false := by cases b <;> simp_all
+          subst hb
+          rw [scatter_cons_false]
+          cases s1 with
+          | nil => rw [scatter_cons_true_nil, acqSum_cons, acqQ_id_left, ih bs n [] s2 hd']; rfl
+          | cons t ts => rw [scatter_cons_true_cons, acqSum_cons, acqQ_id_right, ih bs n ts s2 hd']; rfl
+
+theorem acq_embedGen_disj (m1 m2 : List Bool) (N : Nat) (G1 G2 : Pauli) (hd : maskDisj m1 m2 = true) :
+    acq (embedGen m1 N G1).g (embedGen m2 N G2).g = 0 := by
+  simp only [embedGen, acq]; rw [acqSum_scatter_scatter_disj m1 m2 N _ _ hd]; rfl
+
+/-- **rotations on disjoint sets of qubits commute** (any generators, any phases, any sizes) -/
+theorem rotateMasked_rotateMasked_disj (G1 G2 P : Pauli) (m1 m2 : List Bool) (hd : maskDisj m1 m2 = true) :
+    PEq (rotateMasked G1 m1 (rotateMasked G2 m2 P)) (rotateMasked G2 m2 (rotateMasked G1 m1 P)) := by
+  have e1 : rotateMasked G1 m1 (rotateMasked G2 m2 P)
+      = rotate (embedGen m1 P.g.length G1) (rotate (embedGen m2 P.g.length G2) P) := by
+    rw [rotateMasked_eq_rotate_embedGen G1 _ m1, length_rotateMasked, rotateMasked_eq_rotate_embedGen G2 P m2]
+  have e2 : rotateMasked G2 m2 (rotateMasked G1 m1 P)
+      = rotate (embedGen m2 P.g.length G2) (rotate (embedGen m1 P.g.length G1) P) := by
+    rw [rotateMasked_eq_rotate_embedGen G2 _ m2, length_rotateMasked, rotateMasked_eq_rotate_embedGen G1 P m1]
+  rw [e1, e2]
+  exact rotate_rotate_comm _ _ P (acq_embedGen_disj m1 m2 _ G1 G2 hd) (length_embedGen _ _ _)
+    (length_embedGen _ _ _)
+
 end PC
